@@ -152,6 +152,9 @@ pub fn reported_orphans<K: HKey>(st: &cassadilia::OrphanStats<K>, root: &Path) -
 
 pub const ORPHAN_NAMES: [&str; 5] = ["orphaned_blobs", "invalid_files", "missing_blobs", "corrupted_blobs", "staging_files"];
 
+/// thorough tier: every image is recovered a second time with verify_blob_integrity on (C08 "with and without")
+pub static VERIFY_TOO: std::sync::atomic::AtomicBool = std::sync::atomic::AtomicBool::new(false);
+
 pub struct Ctx<'a> {
     pub cfg: &'a Cfg,
     pub universe: &'a [u8],
@@ -357,6 +360,29 @@ pub fn check_image<K: HKey>(
         }
     }
     util::rm_rf(&dir2);
+    if nest == 0 && (ctx.verify_too || VERIFY_TOO.load(std::sync::atomic::Ordering::Relaxed)) {
+        let dir3 = util::fresh_dir("recv");
+        im.materialize(&dir3);
+        let cfgv = cassadilia::Config { verify_blob_integrity: true, ..ctx.cfg.config() };
+        if let Ok((cas, Some(stats))) = real::open_recover::<K>(&dir3, &cfgv) {
+            let mut f0 = Vec::new();
+            real::check_reads(&cas, m0, ctx.universe, &mut f0);
+            let m = if f0.is_empty() { Some(m0) } else { m1 };
+            if let Some(m) = m {
+                let want = expected_orphans(im, m, true);
+                let got = reported_orphans(&stats, &dir3);
+                for i in 0..5 {
+                    if want[i] != got[i] {
+                        out.push((vec!["C08"], format!("scan-verify-{}", ORPHAN_NAMES[i]), format!("with verify_blob_integrity: {} reported {:?}, independent comparison {:?}", ORPHAN_NAMES[i], got[i], want[i])));
+                    }
+                }
+            }
+            drop(stats);
+            drop(cas);
+        }
+        util::rm_rf(&dir3);
+        res.count("verify_recoveries", 1);
+    }
     // -- nested: crash inside the recovery itself
     if !rsnaps.is_empty() {
         let mut uniq: Vec<(usize, &Snap)> = Vec::new();
@@ -591,6 +617,7 @@ pub fn run(tier: &str, slice: (u64, u64), seed: u64) -> WorkerResult {
     shim::require();
     let mut res = WorkerResult::new("crash");
     let mut j = 0u64;
+    VERIFY_TOO.store(tier != "quick", std::sync::atomic::Ordering::Relaxed);
     // every worker validates the snapshot mechanism on one history of its own before trusting it
     {
         let alpha = ops::alphabet("crash");
